@@ -320,7 +320,8 @@ pub fn run(args: &Args) {
     let mut out = Out::new(&args.out);
     let mut rng = Rng::new(args.seed ^ 0xC01);
     out.comment(&format!("C01 crash seed={} thorough={}", args.seed, args.thorough));
-    let histories = if args.thorough { 40 } else { 4 };
+    let focus_c13 = args.extra.iter().any(|a| a == "c13");
+    let histories = if args.thorough { 40 } else if focus_c13 { 1 } else { 4 };
     let only: Option<usize> = args.extra.iter().position(|a| a == "--only-case").and_then(|i| args.extra.get(i + 1)).and_then(|x| x.parse().ok());
     for case_index in 0..histories {
         let mut r = rng.fork();
@@ -329,14 +330,26 @@ pub fn run(args: &Args) {
         }
         let page = *r.pick(&[512usize, 512, 1024]);
         let cfg = Cfg { page, region: *r.pick(&[65536u64, 65536, 1 << 20]).max(&(page as u64 * 64)), cache: *r.pick(&[0usize, 65536, 1 << 30]) };
-        let mut steps = gen_history(&mut r, "c01", false, page);
+        // `--focus c13`: histories that end in compaction attempts (refused ones and real ones), so
+        // that crash points fall inside compaction's relocating and draining commits
+        let focus = args.extra.iter().position(|a| a == "--focus").and_then(|i| args.extra.get(i + 1)).cloned().unwrap_or_else(|| "c01".to_string());
+        let mut steps = gen_history(&mut r, &focus, false, page);
         steps.retain(|s| !matches!(s, Step::CrashReopen));
-        steps.truncate(if args.thorough { 30 } else { 14 });
+        if focus == "c13" {
+            // keep the tail (the structured compaction attempts are appended at the end)
+            let keep = if args.thorough { 40 } else { 18 };
+            if steps.len() > keep {
+                let cut = steps.len() - keep;
+                steps.drain(1..=cut.min(steps.len() - 2));
+            }
+        } else {
+            steps.truncate(if args.thorough { 30 } else { 14 });
+        }
         // a tail in which the file shrinks: bulk data committed with two-phase / quick-repair
         // commits, most of it removed, then a clean close (whose final commit trims the file) -
         // the crash points inside a shrinking commit and inside the close are what growth-only
         // histories never reach
-        if case_index % 2 == 1 || args.thorough {
+        if focus != "c13" && (case_index % 2 == 1 || args.thorough) {
             use crate::history::{End, Op, TxnSpec};
             let mk = |r: &mut Rng, ops: Vec<Op>, strong: bool| Step::Txn(TxnSpec {
                 durability: redb::Durability::Immediate,
@@ -420,7 +433,7 @@ pub fn run(args: &Args) {
         if ok {
             let budget = if args.thorough { 600 } else { 90 };
             let mut second: Vec<(Vec<u8>, Vec<Ev>, Allowed, String)> = vec![];
-            let keep = if args.thorough { 40 } else { 8 };
+            let keep = if args.thorough { 40 } else if focus_c13 { 3 } else { 8 };
             let n1 = {
                 let mut sink = |chunk: Vec<CrashCase>| run_cases(chunk, &cfg, &mut out, 1, &mut second, keep);
                 enumerate(&initial, &full_log, &records, &mut r, args.thorough, budget, &mut sink)
